@@ -65,6 +65,18 @@ func c18RandDelay(r interface{ Intn(int) int }) int {
 	}
 }
 
+// c18PreDelay: in a "tight" scenario clients issue their operations back to back
+// (operations that take nanoseconds only overlap that way).
+func c18PreDelay(r interface{ Intn(int) int }, tight bool) int {
+	if tight {
+		if r.Intn(5) == 0 {
+			return 1
+		}
+		return 0
+	}
+	return c18RandDelay(r)
+}
+
 // c18ProcsFor spreads the GOMAXPROCS sweep over the case indexes of one test:
 // the cases are cut into len(c18ProcSet) consecutive blocks.
 var c18ProcSet = []int{4, 1, 16, 2}
@@ -156,6 +168,7 @@ func c18OrderDigest(ops []porcupine.Operation) string {
 // c18Linearizable checks one history. Unknown (checker timeout) is inconclusive,
 // never a violation. Returns false only for Illegal.
 func c18Linearizable(m *vk.M, sig, desc string, model porcupine.Model, ops []porcupine.Operation) bool {
+	m.Count("porcupine_concurrent_op_pairs", int64(c18OverlapPairs(ops)))
 	res, info := porcupine.CheckOperationsVerbose(model, ops, c18CheckTimeout)
 	switch res {
 	case porcupine.Ok:
@@ -185,3 +198,30 @@ func c18Linearizable(m *vk.M, sig, desc string, model porcupine.Model, ops []por
 type c18Interval struct{ a, b int64 }
 
 func (x c18Interval) intersects(y c18Interval) bool { return x.a < y.b && y.a < x.b }
+
+// c18Gate lets all clients of a history leave at (nearly) the same instant: a
+// closed channel wakes goroutines one after the other, which serialises histories
+// whose operations take nanoseconds.
+type c18Gate struct{ cnt, n int32 }
+
+func c18NewGate(n int32) *c18Gate { return &c18Gate{n: n} }
+
+func (g *c18Gate) wait() {
+	atomic.AddInt32(&g.cnt, 1)
+	for i := 0; atomic.LoadInt32(&g.cnt) < g.n; i++ {
+		if i%32 == 31 {
+			runtime.Gosched()
+		}
+	}
+}
+
+// c18OverlapPairs counts pairs of operations whose intervals intersect.
+func c18OverlapPairs(ops []porcupine.Operation) int {
+	n := 0
+	for i := range ops {
+		for j := i + 1; j < len(ops) && ops[j].Call < ops[i].Return; j++ {
+			n++
+		}
+	}
+	return n
+}
